@@ -81,7 +81,8 @@ def drive(ctx):
     for (_k, v, t) in work:
         n += 1
         loc = "en" if n % 3 else rnd.choice(locs)
-        ctx.emit("format", {"items": [tok(t)], "locale": loc, "method": "format", "named": ""}, [v])
+        ctx.emit("format", dict({"items": [tok(t)], "locale": loc, "method": "format", "named": ""},
+                                **({"via": "default"} if n % 4 == 0 else {})), [v])
     # ordinal tokens over the numbers on which the CLDR ordinal rules of en / fr / it / sv turn (documented: Do, Mo, Qo;
     # implemented but undocumented: DDDo, wo, do - judged as part of the specification's extension)
     import datetime as _dt
@@ -138,8 +139,8 @@ def drive(ctx):
     for loc in ctx.mine(locs):
         for month in range(1, 13):
             v = mk_dt(UTCZ, [2023, month, 1 + (month * 3) % 7, 15, 0, 0, 0], 0)
-            ctx.emit("format", {"items": [tok("MMMM"), lit(" "), tok("MMM"), lit(" "), tok("Mo"), lit(" "), tok("A")], "locale": loc,
-                                "method": "format", "named": ""}, [v])
+            ctx.emit("format", dict({"items": [tok("MMMM"), lit(" "), tok("MMM"), lit(" "), tok("Mo"), lit(" "), tok("A")], "locale": loc,
+                                     "method": "format", "named": ""}, **({"via": "default"} if month % 3 == 0 else {})), [v])
         for d in range(1, 8):
             v = mk_dt(UTCZ, [2024, 1, d, 9, 0, 0, 0], 0)
             ctx.emit("format", {"items": [tok("dddd"), lit(" "), tok("ddd"), lit(" "), tok("dd"), lit(" "), tok("Do"), lit(" "), tok("A")],
